@@ -63,9 +63,14 @@ def block(first, rest_shape, pad, call):
     return out
 
 
+# the harnesses that also run in the quick tier of C06 (no panic) and C12 (spans inside the text)
+ALSO_QUICK = {"c09_def0_sym1_n2", "c09_def0_nl_n2", "c09_def0_hash_n2", "c09_format_n2", "c09_def0_u2_n2"}
+
+
 def header(tier, timeout, mem, fns, bound, unwind, name):
+    other = "" if name in ALSO_QUICK else ":thorough"
     return [
-        "// @props C09 C06 C12",
+        "// @props C09 C06%s C12%s" % (other, other),
         "// @tier %s" % tier,
         "// @timeout %d" % timeout,
         "// @mem %d" % mem,
